@@ -15,7 +15,7 @@ use std::collections::BTreeMap;
 /// gap marker inside templates: a place where SAS ignores blanks and comments
 const GAP: char = '~';
 /// the last filler is a run of 66 hidden tokens: longer than any bounded look-behind window
-pub const FILLERS: &[&str] = &["", " ", " /*c*/\n", "/*a*//*b*/", "/*c*/ ", "/*c*/ /*c*/ /*c*/ /*c*/ /*c*/ /*c*/ /*c*/ /*c*/ /*c*/ /*c*/ /*c*/ /*c*/ /*c*/ /*c*/ /*c*/ /*c*/ /*c*/ /*c*/ /*c*/ /*c*/ /*c*/ /*c*/ /*c*/ /*c*/ /*c*/ /*c*/ /*c*/ /*c*/ /*c*/ /*c*/ /*c*/ /*c*/ /*c*/ "];
+pub const FILLERS: &[&str] = &["", " ", " /*c*/\n", "/*a*//*b*/", "/*c*/ ", "/*c*/ /*c*/ /*c*/ /*c*/ /*c*/ /*c*/ /*c*/ /*c*/ /*c*/ /*c*/ /*c*/ /*c*/ /*c*/ /*c*/ /*c*/ /*c*/ /*c*/ /*c*/ /*c*/ /*c*/ /*c*/ /*c*/ /*c*/ /*c*/ /*c*/ /*c*/ /*c*/ /*c*/ /*c*/ /*c*/ /*c*/ /*c*/ /*c*/ ", "\u{a0}"];
 
 /// (own type, template with one `{}` hole, hole type)
 /// types: S statement, T macro text, O open-code value, E integer expression operand,
@@ -32,6 +32,7 @@ const CONTEXTS: &[(char, &str, char)] = &[
     ('S', "%do %v=1 %to 3;~{} %end;", 'S'),
     ('S', "%do &v.i~=~1 %to 3;~{} %end;", 'S'),
     ('S', "%do i&j=1 %to 3;~{} %end;", 'S'),
+    ('S', "%do {}~=~1 %to 3~; %end;", 'V'),
     ('S', "%do %while~(~&i<3~)~;~{} %end;", 'S'),
     ('S', "%do %until~(~&i ge 3~)~;~{} %end~;", 'S'),
     ('S', "%if &a %then~%do~;~{} %end;", 'S'),
@@ -96,6 +97,8 @@ const LEAVES: &[(char, &[&str])] = &[
             "x=1;", "%put a;", "%let a=1;", "* c;", "/*c*/", "%m;", "%m(1)", "run;", "%return;", "%local a b;",
             "%goto l;", "datalines;\n1 2\n;", "* it's c;", "x='a''b' \"c;d\";", "format x $char8. y 8.2;",
             "%put %str(;) %nrstr(%mend;);",
+            // a lone '%' at the end of a text segment of a statement value
+            "%put &v%;", "%let a=50%;", "%put 'a'%;", "%let b=&v%\n;", "%put %m()% a;",
         ],
     ),
     ('T', &["a", "1", "&v", "&v.x", "&&v&i", "a b", "%m", "'s'", ""]),
@@ -105,7 +108,13 @@ const LEAVES: &[(char, &[&str])] = &[
     ('A', &["a", "&v", "a b", "(1,2)", "'a,b'", ""]),
     ('Q', &["a", "&v", "&v.x", "%m(1)", " ", ""]),
     ('N', &["a", "%let x=1;", "&v", "a,b"]),
-    ('V', &["a", "&v", "&&v&i", "a&i", "v2345678901234567890123456789012"]),
+    (
+        'V',
+        &[
+            "a", "&v", "&&v&i", "a&i", "v2345678901234567890123456789012", "%m()", "%m()1", "a%m()", "%sysfunc(f())", "%sysfunc(f())9",
+            "%m()&v",
+        ],
+    ),
 ];
 
 /// which context types may fill a hole of type `hole`
@@ -436,7 +445,7 @@ fn c12_run(cfg: &Config) -> PropRun {
     report.distinct_nontrivial = ex.distinct_nontrivial.load(std::sync::atomic::Ordering::Relaxed);
     PropRun {
         report,
-        rule: format!("every derivation chain of the construct grammar G ({} contexts, 9 hole types) of depth <= {} with every gap filler of {{none, blank, blank+comment+newline, two adjacent comments, comment+blank, a run of 66 hidden tokens}}, and of depth <= {d} with one of these fillers per chain (rotating over the chain index); every ordered pair of programs of depth <= {dd} joined by each of 10 separators (blank, nothing, LF, CRLF, TAB, FF, NBSP, U+2028, NEL, commented blank); one well-formed instance of every macro statement keyword and every argument-taking built-in function inside every statement context of depth <= 2 with every filler; non-trivial = mode stack depth >= 6 reached; states/transitions = end configurations at the token boundaries of every {trace_every}th program", CONTEXTS.len(), d - 1),
+        rule: format!("every derivation chain of the construct grammar G ({} contexts, 9 hole types) of depth <= {} with every gap filler of {{none, blank, blank+comment+newline, two adjacent comments, comment+blank, a run of 66 hidden tokens, NBSP}}, and of depth <= {d} with one of these fillers per chain (rotating over the chain index); every ordered pair of programs of depth <= {dd} joined by each of 10 separators (blank, nothing, LF, CRLF, TAB, FF, NBSP, U+2028, NEL, commented blank); one well-formed instance of every macro statement keyword and every argument-taking built-in function inside every statement context of depth <= 2 with every filler; non-trivial = mode stack depth >= 6 reached; states/transitions = end configurations at the token boundaries of every {trace_every}th program", CONTEXTS.len(), d - 1),
         oracle: "no error at all; end-of-input configuration = ([Default], nesting 0, pending [false], no checkpoint)".into(),
     }
 }
@@ -456,6 +465,8 @@ pub enum Kind {
     Masked,
     /// insignificant blanks and comments: hidden or comment channel only
     Gap,
+    /// a word operand of a macro expression: exactly one MacroString token covers it
+    Word,
     Other,
 }
 
@@ -507,6 +518,7 @@ fn value_shapes() -> Vec<(Vec<Piece>, bool)> {
             false,
         ),
         (vec![other("a"), masked("(b,c)"), other("d")], false),
+        (vec![other("1"), masked(";"), other("2")], false),
         (vec![], false),
     ]
 }
@@ -672,6 +684,11 @@ fn operand_shapes() -> Vec<Vec<Piece>> {
         vec![p("12", Kind::Int(12))],
         vec![other("&v")],
         vec![other("ab")],
+        // a mnemonic spelling inside a word is not an operator
+        vec![p("a_or", Kind::Word)],
+        vec![p("b_in", Kind::Word)],
+        vec![p("v2ne", Kind::Word)],
+        vec![p("c_eq", Kind::Word)],
         vec![masked("'s,=;'")],
         vec![p("(", Kind::Op(T::LPAREN)), p("3", Kind::Int(3)), p("+", Kind::Op(T::PLUS)), p("4", Kind::Int(4)), p(")", Kind::Op(T::RPAREN))],
     ]
@@ -793,6 +810,10 @@ pub fn c13_check(pieces: &[Piece], v: &View) -> Vec<String> {
                     }
                 }
             }
+            Kind::Word => match start_of(off) {
+                Some(i) if v.toks[i].ty == T::MacroString && v.toks[i].end == off + len => {}
+                other => out.push(format!("operand.word-split:got={:?}", other.map(|i| v.toks[i].ty))),
+            },
             Kind::Other => {}
         }
         off += len;
@@ -944,6 +965,9 @@ fn c13_items(tier: Tier) -> Vec<Vec<Piece>> {
     let max_ops = if q { 2 } else { 3 };
     let before_f: &[&str] = &["", " "];
     let after_f: &[&str] = if q { &["", " "] } else { &["", " ", " /*c*/\n"] };
+    // around a single operator every combination of the gap shapes (comment glued to the operator,
+    // comment then blank, Unicode blank ...)
+    let rich_f: &[&str] = &["", " ", "/*c*/", "/*c*/ ", " /*c*/ ", "\u{a0}", "/*a*//*b*/", "\n"];
     let mut seqs: Vec<Vec<usize>> = vec![vec![]];
     let mut level: Vec<Vec<usize>> = vec![vec![]];
     for _ in 0..max_ops {
@@ -975,8 +999,13 @@ fn c13_items(tier: Tier) -> Vec<Vec<Piece>> {
                         if un.is_some() && (sh != 0 || seq.len() == 3) {
                             continue;
                         }
-                        for fb in before_f {
-                            for fa in after_f {
+                        // (a comment directly after an operand is a documented limitation of the
+                        // lexer: it cannot know whether the operand continues behind the comment and
+                        // keeps operand and blanks as text; so comments only after the operator)
+                        let plain_f: &[&str] = &["", " ", "\u{a0}", "\n"];
+                        let (bf, af): (&[&str], &[&str]) = if seq.len() <= 1 { (plain_f, rich_f) } else { (before_f, after_f) };
+                        for fb in bf {
+                            for fa in af {
                                 if seq.len() == 3 && !(fb.is_empty() && fa.is_empty()) && (pos + sh) % 2 == 1 {
                                     continue;
                                 }
@@ -991,6 +1020,22 @@ fn c13_items(tier: Tier) -> Vec<Vec<Piece>> {
                     }
                 }
             }
+        }
+    }
+    // a ';' inside a parenthesised expression argument is text, not a terminator
+    for (hp, hs) in EXPR_HOSTS {
+        if !(hp.ends_with('(') || hp.ends_with(',')) {
+            continue;
+        }
+        for body in [vec![masked("1;2")], vec![masked("a;b")], vec![p("1", Kind::Int(1)), p("+", Kind::Op(T::PLUS)), masked("a;")], vec![masked(";")]] {
+            let stat = hp.starts_with("%do") || hp.starts_with("%if");
+            let mut v = if stat { vec![other(hp)] } else { vec![other("%put "), other(hp)] };
+            v.extend(body);
+            v.push(other(hs));
+            if !stat {
+                v.push(other(";"));
+            }
+            items.push(v);
         }
     }
     items
